@@ -122,7 +122,8 @@ Inductive outcome :=
 | OInternal
 | OPanic (why : N)
 | OOutOfFuel
-| OHang.                                (* the dispatcher goroutine blocks forever *)
+| OHang                                 (* the dispatcher goroutine blocks forever *)
+| OWriteTimeout.                        (* the peer did not take the response within the write deadline; connection closed *)
 
 Definition PanicNilSession := 2.      (* worker dereferences a nil session *)
 Definition PanicTicker := 3.          (* time.NewTicker with a non-positive period *)
@@ -323,6 +324,51 @@ Definition deliver (reading : N -> bool) (e : event) (o : outcome) : outcome :=
 
 Definition serve (fuel : nat) (reading : N -> bool) (s : srv) (e : event) : srv * outcome :=
   let '(s', o) := handle fuel s e in (s', deliver reading e o).
+
+(* ---- since the fix: response writes have a deadline (uasc writeMessageChunks: SetWriteDeadline(now + ResponseWriteTimeout),
+   default 5 s; when it expires the connection is closed), and a change notification does not wait for a subscription that
+   has been shut down (Subscription.notify).  Time accounting, as an upper bound: a channel whose peer has stopped reading
+   ("stalled") costs the dispatcher at most one deadline D - the first time the dispatcher touches it, by writing a response
+   to it or by waiting for one of its subscription workers, itself stuck in a write to it, to take a notification - and is
+   closed by then (a write to a closed connection fails at once, its workers exit, its subscriptions are shut down). *)
+Record tsrv := TS { ts_srv : srv; ts_stalled : list N; ts_closed : list N }.
+
+Definition writes_response (o : outcome) : bool := match o with OPublishQueued | OInternal => false | _ => true end.
+
+(* channels of the subscriptions that monitor node k *)
+Definition item_chans (s : srv) (k : key) : list N :=
+  flat_map (fun e : N * item => if snd (it_node (snd e)) =? k
+                                then match alist_get (it_sub (snd e)) (sv_subs s) with Some sb => [sub_chan sb] | None => [] end
+                                else []) (sv_items s).
+
+(* channels the dispatcher writes to or waits for while it handles e *)
+Definition touched (s : srv) (e : event) (o : outcome) : list N :=
+  match e, o with
+  | EReq chan _ (RWrite l), OWrite sts =>
+      chan :: flat_map (fun ws : (nid * N * dval) * N => if snd ws =? StOK then item_chans s (snd (fst (fst (fst ws)))) else []) (combine l sts)
+  | EReq chan _ _, _ => if writes_response o then [chan] else []
+  | _, _ => []
+  end.
+
+Definition mem (c : N) (l : list N) : bool := existsb (N.eqb c) l.
+
+(* one dispatcher iteration with its duration; htime = the handler's own computation time *)
+Definition serve_t (fuel : nat) (D : N) (htime : event -> N) (t : tsrv) (e : event) : tsrv * outcome * N :=
+  let '(s', o) := handle fuel (ts_srv t) e in
+  let tch := touched (ts_srv t) e o in
+  let hit := filter (fun c => mem c tch) (ts_stalled t) in
+  let stalled' := filter (fun c => negb (mem c tch)) (ts_stalled t) in
+  let own_dead := match e with EReq chan _ _ => mem chan hit || mem chan (ts_closed t) | _ => false end in
+  (TS s' stalled' (hit ++ ts_closed t),
+   if own_dead && writes_response o then OWriteTimeout else o,
+   htime e + D * N.of_nat (length hit)).
+
+(* outcomes and the time at which each event has been dealt with, from time 0 *)
+Fixpoint run_t (fuel : nat) (D : N) (htime : event -> N) (t : tsrv) (now : N) (h : list event) : list (outcome * N) :=
+  match h with
+  | [] => []
+  | e :: r => let '(t', o, dt) := serve_t fuel D htime t e in (o, now + dt) :: run_t fuel D htime t' (now + dt) r
+  end.
 
 Definition step (fuel : nat) (s : srv) (e : event) : srv := fst (handle fuel s e).
 Definition run (fuel : nat) (s : srv) (h : list event) : srv := fold_left (step fuel) h s.
